@@ -104,6 +104,13 @@ class C20(CheckBase):
                 lon2 = lon1 + (round(rng.uniform(-0.3, 0.3), 4) if fa != 'dms' else round(rng.uniform(-0.2, 0.2), 2))
             else:
                 lat2, lon2 = ang(85), ang(179)
+            k = rng.random()
+            if k < 0.12:
+                lon2 = lon1            # same meridian (azimuths exactly 0 / 180 / 360)
+            elif k < 0.18:
+                lat2 = lat1            # same parallel
+            elif k < 0.21:
+                lat2, lon2 = lat1, lon1
             p = {'lat1': lat1, 'lon1': lon1, 'lat2': lat2, 'lon2': lon2}
         else:
             p = {'lat1': ang(rng.choice([85, 85, 89])), 'lon1': ang(179), 'azimuth1to2': abs(ang(359)) if rng.random() < 0.85 else ang(359),
